@@ -17,8 +17,19 @@ THEOREMS_C17R = ["Slock.C17R.reachable_refcounts", "Slock.C17R.keycount_exact", 
 THEOREMS_SIM = ["Slock.SimP.abs_is_key_local", "Slock.SimP.lock_branch_refines", "Slock.SimP.unlock_branch_refines",
                 "Slock.SimP.sim_lock_quiet", "Slock.SimP.sim_unlock_quiet", "Slock.SimP.admission_contract_transfers",
                 "Slock.SimP.wake_pass_refines", "Slock.SimP.sim_lock_grant", "Slock.SimP.sim_unlock_hold", "Slock.SimP.sim_lock_hold", "Slock.SimP.reachable_ki", "Slock.SimP.SimInv.of_reachable", "Slock.SimP.sim_unlock_cancel", "Slock.SimP.reachable_ks", "Slock.SimP.wait_priority_refines", "Slock.SimP.sim_lock", "Slock.SimP.sim_unlock"]
-# the closing statement for tick-free runs (Slock/Properties/EngineSimRun.lean)
+# the closing statement, runs with clock ticks on the leader (Slock/Properties/EngineSimRun.lean)
 THEOREMS_SIMRUN = ["Slock.SimP.sim_step", "Slock.SimP.sim_run", "Slock.SimP.C01_mutex_transfers"]
+# the clock tick: both sweeps of the record-level model against stage 1's opTick (Slock/Properties/EngineSimTick.lean)
+THEOREMS_SIMTICK = ["Slock.SimP.sim_tick", "Slock.SimP.opTick_respects_equiv", "Slock.SimP.reachable_kt", "Slock.SimP.reachable_sy",
+                    "Slock.SimP.Inv1.init",
+                    "Slock.SimTick.sim_tick_core", "Slock.SimTick.sim_sweepT", "Slock.SimTick.sim_sweepE", "Slock.SimTick.opTick_congr",
+                    "Slock.SimTick.run_dbkt", "Slock.SimTick.opTick_s3", "Slock.SimTick.opLock_sq", "Slock.SimTick.opUnlock_sq",
+                    "Slock.SimTick.corrT", "Slock.SimTick.corrE", "Slock.SimTick.sortBySeq_ext", "Slock.SimTick.filter_sortBySeq",
+                    "Slock.SimTick.sim_rearmT", "Slock.SimTick.sim_rearmE", "Slock.SimTick.sim_collectT",
+                    "Slock.SimTick.sim_fireT_live", "Slock.SimTick.sim_fireE_live", "Slock.SimTick.sim_visitT_stutter", "Slock.SimTick.sim_visitE_stutter",
+                    "Slock.SimTick.sim_fireT_stutter", "Slock.SimTick.sim_fireE_stutter", "Slock.SimTick.fire_eqL",
+                    "Slock.SimTick.pass1T", "Slock.SimTick.passLT", "Slock.SimTick.fireT_fold", "Slock.SimTick.pass1E", "Slock.SimTick.passLE",
+                    "Slock.SimTick.fireE_fold", "Slock.SimTick.pt_step", "Slock.SimTick.pe_step"]
 THEOREMS_C10 = ["Slock.C10.gate_lock", "Slock.C10.gate_unlock", "Slock.C10.no_journal_off_leader", "Slock.C10.follower_expiry_deferred",
                 "Slock.C10.follower_expiry_ended_only_after", "Slock.C10.follower_defers_again"]
 
@@ -92,8 +103,9 @@ def run_engine2(ctx, prefixes, n_quick=3000, n_thorough=40000, ops=40, extra=Non
 
 def audit_sim(ctx):
     """The stage-2 -> stage-1 simulation theorems proved so far (to be called from c01.py … c06.py / c17.py)."""
-    ctx.lake_build(["Slock.Properties.EngineSim", "Slock.Properties.EngineSimRun"])
+    ctx.lake_build(["Slock.Properties.EngineSim", "Slock.Properties.EngineSimTick", "Slock.Properties.EngineSimRun"])
     ctx.audit("Slock.Properties.EngineSim", THEOREMS_SIM)
+    ctx.audit("Slock.Properties.EngineSimTick", THEOREMS_SIMTICK)
     ctx.audit("Slock.Properties.EngineSimRun", THEOREMS_SIMRUN)
 
 
